@@ -215,6 +215,19 @@ CHECKS = [
                 'inputs the documentation leaves open (dirty undeclared state for table-using macros, overflowing idiv) are '
                 'counted as unspecified; w=16 is not exercised (hex.init does not fit)',
     },
+    {
+        'property_id': 'C09', 'level': 'exploration', 'design_ref': 'DESIGN.md 4 C09, 3.7',
+        'technique': 'runtime monitoring: model-driven IO device (knows the next application, predicts its exact output bit string and input consumption) + SYNC-point variable monitor; reference renderers/parsers transcribed from the documentation',
+        'text': 'The real input/print/cast/string library runs on the real interpreter (w=32/64). The device is model-driven: at each '
+                'SYNC it derives from the spec the exact output bits, the input the application may consume, the operand updates and '
+                'the branch, compares every output bit as it arrives, counts marker bits, checks the input-bit count and every cell '
+                'of every variable and byte buffer; a witness flip before each SYNC exposes surplus output. Values are exhaustive up '
+                'to 12 read bits (16 thorough) and boundary-biased above (0, 10^k+-1, 2^k+-1, most negative), sizes to 16 hexes / '
+                '64 bits; inputs cover numerals of every length, invalid bytes at every position, empty input, missing terminators '
+                'and EOF in mid-token (re-runs with truncated input must end with cause EOF inside that application).',
+        'note': 'monitor and spec built by a sub-agent under the rule "transcribe the documentation, never the body", reviewed; where '
+                'the documentation is silent (destination on the error branch, digit-less numerals) the aspect is unspecified',
+    },
 ]
 
 _TODO = 'check not built yet in this session (work in progress; see DESIGN.md for the planned monitor)'
